@@ -101,6 +101,8 @@ type Exec struct {
 	topName     string
 	liveObjs    []liveObj
 	owned       []ownedLoc
+	peelBody    map[*ssa.BasicBlock]bool
+	lemmaInline map[string]bool
 }
 
 // ownedLoc: a field of an object that only code handed the object may write (contract clause "owns").
@@ -773,6 +775,13 @@ func (x *Exec) execFunc(fr *Frame, st *State) (*State, []string) {
 		}
 		cur := x.mergeEdges(fr, b, edges)
 		if isLoopHeader(b) {
+			if pureHeader(b) {
+				// peel the zero-iteration case: run the (side-effect free) header once on the
+				// un-havocked entry state and keep only the edges that leave the loop
+				x.peelBody = loopBlocks(b)
+				x.execBlock(fr, cur.clone(), b, in, &rets, loopIdx)
+				x.peelBody = nil
+			}
 			x.loopCut(fr, cur, b, loopIdx[b], edges)
 		}
 		x.execBlock(fr, cur, b, in, &rets, loopIdx)
@@ -976,6 +985,9 @@ func (x *Exec) execBlock(fr *Frame, st *State, b *ssa.BasicBlock, in map[*ssa.Ba
 			c := x.val(fr, st, t.Cond)
 			c = x.vc.define("cond", "Bool", c)
 			r := x.reachOf(st)
+			if debugExec {
+				fmt.Printf("  if %s reach %s (%s) @%s in %s\n", c, r, t.Cond.String(), x.p.pos(t.Cond.Pos()), fn0(fr))
+			}
 			st1 := st.clone()
 			st1.reach = x.vc.define("r", "Bool", and(r, c))
 			st2 := st
@@ -1004,7 +1016,51 @@ func (x *Exec) execBlock(fr *Frame, st *State, b *ssa.BasicBlock, in map[*ssa.Ba
 	}
 }
 
+// pureHeader: the loop header has no calls, stores or other effects, and none of the values it
+// defines is used outside the loop (so it can be executed twice).
+func pureHeader(h *ssa.BasicBlock) bool {
+	body := loopBlocks(h)
+	for _, ins := range h.Instrs {
+		switch ins.(type) {
+		case *ssa.Phi, *ssa.BinOp, *ssa.If, *ssa.Jump, *ssa.DebugRef, *ssa.Extract, *ssa.Field, *ssa.FieldAddr, *ssa.Convert, *ssa.ChangeType:
+		case *ssa.UnOp:
+			if ins.(*ssa.UnOp).Op.String() == "<-" {
+				return false
+			}
+		case *ssa.Store:
+			// a store to a plain local cell (the hidden range index) only changes the cloned state
+			if a := rootAlloc(ins.(*ssa.Store).Addr); a == nil || a.Heap {
+				return false
+			}
+		case *ssa.Call:
+			c := ins.(*ssa.Call)
+			if bi, ok := c.Call.Value.(*ssa.Builtin); !ok || (bi.Name() != "len" && bi.Name() != "cap") {
+				return false
+			}
+		default:
+			return false
+		}
+		if v, ok := ins.(ssa.Value); ok {
+			if refs := v.Referrers(); refs != nil {
+				for _, r := range *refs {
+					if !body[r.Block()] {
+						return false
+					}
+				}
+			}
+		}
+	}
+	return true
+}
+
 func (x *Exec) addEdge(fr *Frame, from, to *ssa.BasicBlock, st *State, in map[*ssa.BasicBlock][]edgeIn, loopIdx map[*ssa.BasicBlock]int) {
+	if x.peelBody != nil {
+		if x.peelBody[to] {
+			return // the peeled pass only follows edges that leave the loop
+		}
+		in[to] = append(in[to], edgeIn{from, st})
+		return
+	}
 	if isBackEdge(from, to) {
 		x.loopBack(fr, st, from, to, loopIdx[to])
 		return
@@ -1013,3 +1069,5 @@ func (x *Exec) addEdge(fr *Frame, from, to *ssa.BasicBlock, st *State, in map[*s
 }
 
 var debugExec = os.Getenv("GOVC_DEBUG") != ""
+
+func fn0(fr *Frame) string { return shortFn(fr.fn) }
